@@ -10,7 +10,7 @@ from dask.utils import apply
 from dask_expr import SetIndexBlockwise, new_collection
 from dask_expr._expr import MapPartitions, RenameAxis, ResetIndex
 from dask_expr._merge import Merge
-from dask_expr._util import _BackendData
+from dask_expr._util import _BackendData, _convert_to_list
 from dask_expr.io import FromPandas
 
 
@@ -56,6 +56,14 @@ class MergeAsof(Merge):
             "allow_exact_matches": self.allow_exact_matches,
             "direction": self.direction,
         }
+
+    @property
+    def _left_key_columns(self):
+        return super()._left_key_columns + (_convert_to_list(self.left_by) or [])
+
+    @property
+    def _right_key_columns(self):
+        return super()._right_key_columns + (_convert_to_list(self.right_by) or [])
 
     @functools.cached_property
     def _left(self):
@@ -173,6 +181,8 @@ class MergeAsofIndexed(MergeAsof):
         "allow_exact_matches",
         "direction",
     ]
+    # Always merges on the index
+    left_on = right_on = None
 
     def _divisions(self):
         return self.left.divisions
